@@ -98,6 +98,7 @@ fn simpler_step(s: &Step) -> Vec<Step> {
         NextRefNow(j) => out.push(NextNow(*j)),
         SubRead(j) => out.push(SubGet(*j)),
         UpgradeKeep(k) => out.push(UpgradeDrop(*k)),
+        Park(j) => out.push(SubDrop(*j)),
         CloneOwner(i) | DropOwner(i) | Downgrade(i) | Get(i) | Read(i) | ReadHold(i) | Subscribe(i) => {
             let _ = i;
         }
